@@ -114,6 +114,34 @@ func streamHkdf(c *ctx) {
 			}
 		}
 	}
+	// the one-shot function on short outputs (a single block or less), every info residue: equal to the reference, a
+	// prefix of the longer derivation, and equal to what the reader gives
+	for il := 0; il <= c.n(48, 130); il++ {
+		for _, sl := range []int{16, 32} {
+			secret := c.r.bytes(sl)
+			info := c.r.bytes(il)
+			long, lerr := hkdf.HKDFAES(secret, info, 48)
+			for _, n := range []int{0, 1, 8, 15, 16, 17, 32} {
+				if !c.thorough() && (il+n+sl)%2 == 1 && n != 16 {
+					continue
+				}
+				out, err := hkdf.HKDFAES(secret, info, n)
+				line := fmt.Sprintf("hkdf-aes-oneshot|secret=%x|info=%x|size=%d => ok=%v", secret, info, n, err == nil)
+				if err != nil {
+					out = nil
+				}
+				c.addCase(fmt.Sprintf("HAes %s %s [%d] %s %s", qHex(secret), qHex(info), n, qB(err == nil), qHex(out)), line)
+				ref, rerr := refHkdfAes(secret, info, n)
+				if err != nil || rerr != nil || !bytes.Equal(out, ref) {
+					c.fail(failure{Op: "hkdf", What: "one-shot HKDF-AES output differs from RFC 5869 expand over AES-CBC-MAC", Input: line, Observed: fmt.Sprintf("%x err=%v", out, err), Expected: hx(ref), Case: line, Theorem: "C13_stream_is_rfc5869"})
+				}
+				if err == nil && lerr == nil && !bytes.Equal(out, long[:n]) {
+					c.fail(failure{Op: "hkdf", What: "a shorter HKDF-AES output is not a prefix of the longer one for the same secret and info", Input: line, Observed: hx(out), Expected: hx(long[:n]), Case: line, Theorem: "C13_reads_is_expand"})
+				}
+				c.nontriv(fmt.Sprintf("aes-oneshot|%d|%d|%d", il%16, sl, n))
+			}
+		}
+	}
 	// the limit, in one read and across reads
 	for _, sl := range []int{16, 32} {
 		secret := c.r.bytes(sl)
